@@ -855,11 +855,28 @@ pub fn registry_atomicity() -> Value {
 	if m.remove_method("c").is_none() || m.remove_method("c").is_some() {
 		return fail("remove_method(\"c\") twice", "first None or second Some".into(), "Some then None".into());
 	}
+	// remove while a clone of the module is alive: the name is unbound in the original (and can be registered again),
+	// still bound in the clone
+	{
+		let keep = m.clone();
+		let had = names(&m);
+		let removed = m.remove_method("a").is_some();
+		let after: Vec<&'static str> = had.iter().cloned().filter(|n| *n != "a").collect();
+		if !removed || names(&m) != after {
+			return fail("clone the module, then remove_method(\"a\") on the original", format!("removed={} names={:?}", removed, names(&m)), format!("removed=true names={:?}", after));
+		}
+		if names(&keep) != had {
+			return fail("clone the module, then remove_method(\"a\") on the original: names of the CLONE", format!("{:?}", names(&keep)), format!("{:?}", had));
+		}
+		if m.register_method("a", |_, _, _| 5u64).is_err() || names(&m) != had {
+			return fail("register \"a\" again after removing it (a clone of the module still alive)", format!("{:?}", names(&m)), format!("Ok, names {:?}", had));
+		}
+	}
 	// the clone taken earlier is unaffected
 	if names(&snapshot) != before {
 		return fail("clone taken before the changes", format!("{:?}", names(&snapshot)), format!("{:?}", before));
 	}
-	json!({"probe":"registry_atomicity","disagrees":false,"inputs_tried":14})
+	json!({"probe":"registry_atomicity","disagrees":false,"inputs_tried":17})
 }
 
 // ------------------------------------------------------------------------------------------
